@@ -82,8 +82,102 @@ func pinOracle(cs caseSpec, res caseResult, nPrefix int) []failure {
 	return fails
 }
 
+// attachedPinOracle: while a session streams over an interleaved connection (the one whose PLAY / RECORD
+// was answered 200), a request that reaches the session over ANY other connection -- a fresh one or one
+// that attached to the session before it started streaming -- must get an error status and leave the
+// session (state, liveness, owning connection) untouched.
+func attachedPinOracle(cs caseSpec, res caseResult) []failure {
+	var fails []failure
+	pin := map[int]int{} // session -> connection it streams on (interleaved)
+	var prev *stepObs
+	for i := range res.obs {
+		o := &res.obs[i]
+		r := o.req
+		k := o.target
+		if prev != nil && o.status != 0 && r.meth != mDescribe && k >= 0 && k < len(prev.states) {
+			owner, pinned := pin[k]
+			ps := prev.states[k]
+			if pinned && (ps == 2 || ps == 4) && owner != r.conn && cs.ips[r.conn] == cs.ips[owner] {
+				fresh := true
+				for j := 0; j < i; j++ {
+					if res.obs[j].req.conn == r.conn && res.obs[j].target == k && res.obs[j].status != 0 && res.obs[j].status < 400 {
+						fresh = false // it had attached to the session earlier
+					}
+				}
+				class := "pinned-session-driven-from-attached-conn"
+				if fresh {
+					class = "pinned-session-driven-from-other-conn"
+				}
+				what := fmt.Sprintf("%s on connection %d while session %d streams (%s) interleaved on connection %d", r, r.conn, k, stName(ps), owner)
+				if o.status < 400 {
+					fails = append(fails, failure{class, what + fmt.Sprintf(": answered %d", o.status)})
+				}
+				if o.states[k] != ps {
+					fails = append(fails, failure{class, what + fmt.Sprintf(": the session went from %s to %s", stName(ps), stName(o.states[k]))})
+				}
+				if prev.open[owner] && !o.open[owner] {
+					fails = append(fails, failure{class, what + ": the owning connection was closed"})
+				}
+			}
+		}
+		// bookkeeping: PLAY / RECORD answered 200 that moved an interleaved session into streaming pins it;
+		// leaving the streaming state (or ending) unpins it
+		for j, st := range o.states {
+			if st != 2 && st != 4 {
+				delete(pin, j)
+			}
+		}
+		if k >= 0 && k < len(o.states) && o.status == 200 && (r.meth == mPlay || r.meth == mRecord) &&
+			(o.states[k] == 2 || o.states[k] == 4) && k < len(o.tcp) && o.tcp[k] {
+			if _, already := pin[k]; !already {
+				pin[k] = r.conn
+			}
+		}
+		prev = o
+	}
+	return fails
+}
+
+// attachedCases: connection 1 attaches to the session while it is not streaming (200, legitimate), then
+// connection 0 starts streaming interleaved, then connection 1 -- already listed by the session -- tries
+// each method; also after a PAUSE / resume cycle.
+func attachedCases() []caseSpec {
+	var out []caseSpec
+	type variant struct {
+		name  string
+		start []request // up to the point where connection 1 attaches
+		go_   []request // connection 0 starts (or resumes) streaming
+	}
+	vs := []variant{
+		{"play", []request{setupTCP(0, 0, 0)}, []request{rq(0, mPlay).R()}},
+		{"play after pause", []request{setupTCP(0, 0, 0), rq(0, mPlay).R(), rq(0, mPause).R()}, []request{rq(0, mPlay).R()}},
+		{"record", []request{announce(0, 1), setupTCP(0, 0, 2).R()}, []request{rq(0, mRecord).R()}},
+		{"record after pause", []request{announce(0, 1), setupTCP(0, 0, 2).R(), rq(0, mRecord).R(), rq(0, mPause).R()}, []request{rq(0, mRecord).R()}},
+	}
+	attach := []request{rq(1, mOptions).R(), rq(1, mGetParam).R()}
+	for _, v := range vs {
+		for ai, a := range attach {
+			for _, m := range []int{mOptions, mGetParam, mSetParam, mPause, mPlay, mRecord, mTeardown, mSetup, mAnnounce} {
+				q := rq(1, m).R()
+				switch m {
+				case mSetup:
+					q = setupTCP(1, 1, 0).R()
+				case mAnnounce:
+					q = announce(1, 1).R()
+				}
+				seq := append([]request(nil), v.start...)
+				seq = append(seq, a)
+				seq = append(seq, v.go_...)
+				seq = append(seq, q, rq(0, mOptions).R(), rq(0, mGetParam).R(), rq(0, mPause).R())
+				out = append(out, mkCase(255, true, fmt.Sprintf("attached conn: %s, attach %d", v.name, ai), seq))
+			}
+		}
+	}
+	return out
+}
+
 func c19Control(ctx *hx.Ctx) {
-	ctx.Rule("control side of C19: every (state, transport) prefix, then each of the ten methods with the stolen session id from a connection of another IP (127.0.0.2) and from a second connection of the same IP, then the owner checks the session still answers; plus sampled long three-connection sequences; distinct = distinct (method, status, states) sequence")
+	ctx.Rule("control side of C19: every (state, transport) prefix, then each of the ten methods with the stolen session id from a connection of another IP (127.0.0.2) and from a second connection of the same IP, then the owner checks the session still answers; a second connection that attaches before the session streams interleaved (also after PAUSE) and then tries every method; plus sampled long three-connection sequences; distinct = distinct (method, status, states) sequence")
 	var cases []caseSpec
 	kinds := map[int]string{}
 	for _, p := range prefixes()[1:] {
@@ -102,8 +196,9 @@ func c19Control(ctx *hx.Ctx) {
 			}
 		}
 	}
-	// sampled: reuse the long-sequence generator (it uses all three connections)
 	n0 := len(cases)
+	cases = append(cases, attachedCases()...)
+	// sampled: reuse the long-sequence generator (it uses all three connections)
 	for _, cs := range generate(ctx) {
 		if cs.kind == "sampled long" && len(cs.ips) == 3 {
 			cases = append(cases, cs)
@@ -115,6 +210,7 @@ func c19Control(ctx *hx.Ctx) {
 			continue
 		}
 		fails := c19Oracle(cases[i], r)
+		fails = append(fails, attachedPinOracle(cases[i], r)...)
 		if i < n0 && (kinds[i] == "play-tcp" || kinds[i] == "record-tcp") {
 			fails = append(fails, pinOracle(cases[i], r, 0)...)
 		}
